@@ -9,9 +9,19 @@ Every statement is for every instance, origin, destination and every schedule th
 (ties, re-opened vertices).  A* needs admissibility (`hv v ≤` cost of every walk from `v` to the
 target) — on metrically consistent networks with weight factor ≤ 1 that is what the great-circle
 estimate provides; Dijkstra (`h = 0`) needs nothing.
+
+`Uniform` / `UniformCost` quantify over *every* state vector and previous edge, which no concrete
+configuration meets (a malformed state makes the traversal fail).  The `_on` theorems take the
+premises only on the calls the search really makes and only of calls that answer
+(`UniformOn` / `UniformCostOn`, relative to an invariant `S` of the (last edge, state) pairs), and the
+`config_…` theorems discharge them for every *edge-local* configuration (`Config.EdgeLocal`: no access
+model, no turn restrictions, consistent adjacency) — with the distance or the speed-table traversal
+model, any weights, rates (offsets too), surcharges, aggregation and feature units: there the cost of
+an edge is `Config.costOf c e`, the floor applied to the C07 formula of the edge's own state change.
 -/
 import Compass.Proofs.SearchOpt
 import Compass.Proofs.SearchRoute
+import Compass.Proofs.ConfigUniform
 
 namespace Compass
 namespace C02
@@ -108,6 +118,156 @@ admissible heuristic meets every premise, and the theorem applies to an actual r
 
 example : Uniform Example.exInst Example.exOk Example.exCost Example.exH := Example.ex_uniform
 example : Admissible Example.exInst Example.exOk Example.exCost Example.exH 3 := Example.ex_admissible
+
+/-! ### The same with the premises restricted to the calls the search makes (`UniformOn`) -/
+
+/-- every instance in the old setting is in the new one (invariant `True`) -/
+theorem uniform_is_uniform_on {I : Inst α} {ok : Nat → Bool} {c hv : Nat → α}
+    (U : Uniform I ok c hv) : UniformOn I (fun _ _ => True) ok c hv :=
+  U.toOn
+
+/-- A*, label: premises only on the (last edge, state) pairs satisfying the invariant `S` -/
+theorem astar_label_least_cost_on {I : Inst α} {S : Option Nat → List α → Prop} {ok : Nat → Bool}
+    {c hv : Nat → α} (U : UniformOn I S ok c hv) {source t : Nat} (hts : t ≠ source)
+    (hadm : Admissible I ok c hv t) {sched : List Nat} {s : SState α}
+    (hrun : runAStar I source (some t) sched = .ok s) :
+    ∃ d, s.g t = some d ∧ (∃ es, Walk I ok source es t ∧ cost c es = d) ∧
+      ∀ es, Walk I ok source es t → d ≤ cost c es :=
+  label_optimal_on U hts hadm hrun
+
+/-- A*, route (`WF I`: every answered traversal charges a positive cost) -/
+theorem astar_route_least_cost_on {I : Inst α} {S : Option Nat → List α → Prop} {ok : Nat → Bool}
+    {c hv : Nat → α} (hI : SearchTree.WF I) (U : UniformOn I S ok c hv) {source t : Nat}
+    (hts : t ≠ source) (hadm : Admissible I ok c hv t) {sched : List Nat} {res : SearchResult α}
+    (h : runVertexOriented I source (some t) sched = .ok res) :
+    ∃ route d, res.route = some route ∧ route ≠ [] ∧
+      Walk I ok source (route.map (·.edge)) t ∧
+      (route.map (fun b => b.access + b.traversal)).sum = cost c (route.map (·.edge)) ∧
+      res.final.g t = some d ∧
+      (route.map (fun b => b.access + b.traversal)).sum = d ∧
+      ∀ es, Walk I ok source es t → (route.map (fun b => b.access + b.traversal)).sum ≤ cost c es :=
+  SearchRoute.route_optimal_on hI U hts hadm h
+
+/-- Dijkstra, route: whenever the heuristic answers, it answers 0 -/
+theorem dijkstra_route_least_cost_on {I : Inst α} {S : Option Nat → List α → Prop}
+    {ok : Nat → Bool} {c : Nat → α} (hI : SearchTree.WF I) (U : UniformCostOn I S ok c)
+    (h0 : VertexHOn I S (fun _ => 0)) {source t : Nat} (hts : t ≠ source)
+    {sched : List Nat} {res : SearchResult α}
+    (h : runVertexOriented I source (some t) sched = .ok res) :
+    ∃ route d, res.route = some route ∧ route ≠ [] ∧
+      Walk I ok source (route.map (·.edge)) t ∧
+      (route.map (fun b => b.access + b.traversal)).sum = cost c (route.map (·.edge)) ∧
+      res.final.g t = some d ∧
+      (route.map (fun b => b.access + b.traversal)).sum = d ∧
+      ∀ es, Walk I ok source es t → (route.map (fun b => b.access + b.traversal)).sum ≤ cost c es :=
+  SearchRoute.dijkstra_route_optimal_on hI U h0 hts h
+
+/-! ### Concrete configurations -/
+
+/-- `StateIndep`, proved: in an edge-local configuration, whenever the frontier models answer the
+verdict is `okOf c e`, and whenever `forward_traversal` / `reverse_traversal` answers — from any
+state, after any previous edge — the record's `access + traversal` is `costOf c e > 0` -/
+theorem config_edge_cost_uniform (c : Config α) (h : c.EdgeLocal) :
+    UniformCostOn c.inst (fun _ _ => True) c.okOf c.costOf :=
+  c.uniformCostOn h
+
+/-- what `costOf` is under sum aggregation: the floor applied to
+`Σᵢ wᵢ·rateᵢ(Δᵢ e) + Σᵢ wᵢ·lookupᵢ(e)`, `Δ e` the state change of the edge
+(`Config.edgeDelta_distance`, `Config.edgeDelta_speed`) -/
+theorem config_edge_cost_formula (c : Config α) (hs : c.cost.agg = .sum) (e : Nat) :
+    c.costOf e = enforceStrictlyPositive
+      ((c.cost.indices.map fun i => c.cost.wt i * (c.cost.vr i).mapValue (c.edgeDelta e i)).sum
+        + (c.cost.indices.map fun i => c.cost.wt i * (c.cost.nr i).traversalCost e).sum) :=
+  c.costOf_sum hs e
+
+/-- whenever `estimate_traversal_cost` answers it answers `hOf c v`, whatever the state -/
+theorem config_estimate_vertex_function (c : Config α) (v : Nat) (st : List α) (x : α)
+    (h : estimate c v st = .ok x) : x = c.hOf v :=
+  estimate_eq c v st x h
+
+/-- **Dijkstra on a concrete configuration** (`weight_factor = 0`): every edge-local configuration,
+every origin, destination and schedule — the returned route is a valid walk whose summed cost is
+`Σ costOf` over its edges and is the least over all valid walks -/
+theorem config_dijkstra_route_least_cost (c : Config α) (h : c.EdgeLocal) (hwf : c.wf = some 0)
+    {source t : Nat} (hts : t ≠ source)
+    {sched : List Nat} {r : AlgResult α} (hrun : c.runVertex source (some t) sched = .ok r) :
+    ∃ route, r.routes = [route] ∧ route ≠ [] ∧
+      Walk c.inst c.okOf source (route.map (·.edge)) t ∧
+      (route.map (fun b => b.access + b.traversal)).sum = cost c.costOf (route.map (·.edge)) ∧
+      ∀ es, Walk c.inst c.okOf source es t →
+        (route.map (fun b => b.access + b.traversal)).sum ≤ cost c.costOf es :=
+  _root_.Compass.config_dijkstra_route_least_cost c h hwf hts hrun
+
+/-- **A\* on a concrete configuration**: the same for any non-negative weight factor when the
+configuration's estimate `hOf` is admissible for the destination (e.g. consistent,
+`consistent_is_admissible`) -/
+theorem config_astar_route_least_cost (c : Config α) (h : c.EdgeLocal) (hwf : 0 ≤ c.wfOf)
+    {source t : Nat} (hts : t ≠ source) (hadm : Admissible c.inst c.okOf c.costOf c.hOf t)
+    {sched : List Nat} {r : AlgResult α} (hrun : c.runVertex source (some t) sched = .ok r) :
+    ∃ route, r.routes = [route] ∧ route ≠ [] ∧
+      Walk c.inst c.okOf source (route.map (·.edge)) t ∧
+      (route.map (fun b => b.access + b.traversal)).sum = cost c.costOf (route.map (·.edge)) ∧
+      ∀ es, Walk c.inst c.okOf source es t →
+        (route.map (fun b => b.access + b.traversal)).sum ≤ cost c.costOf es :=
+  _root_.Compass.config_astar_route_least_cost c h hwf hts hadm hrun
+
+/-! ### Non-vacuity on concrete configurations (`ConfigUniform.Example`): an offset rate, an edge
+surcharge, a unit conversion, a forbidden shortcut, a cycle and self loops; the speed-table model;
+A* with a non-zero admissible estimate; a reverse search. -/
+
+section
+open ConfigUniform.Example SearchRoute.Example
+
+/-- Dijkstra on `exC`: the run returns `[0, 7]` (not the shortest-by-length `[0, 1, 2]`, not the
+forbidden shortcut `[6]`), and the theorem bounds every valid walk `0 ⇝ 3` by its cost -/
+example : ∃ r route, exC.runVertex 0 (some 3) [0, 1, 2, 3] = .ok r ∧ r.routes = [route] ∧
+    route.map (·.edge) = [0, 7] ∧
+    ∀ es, Walk exC.inst exC.okOf 0 es 3 →
+      (route.map (fun b => b.access + b.traversal)).sum ≤ cost exC.costOf es := by
+  obtain ⟨r, hr⟩ := ok_of_routeEdgesOf exC_run
+  obtain ⟨route, h1, _, _, _, h5⟩ :=
+    config_dijkstra_route_least_cost exC exC_edgeLocal rfl (by decide) hr
+  refine ⟨r, route, hr, h1, ?_, h5⟩
+  have := exC_run
+  rw [hr] at this
+  simpa [routeEdgesOf, h1] using this
+
+/-- the quantifier over walks is not empty, and the cheaper shortcut is indeed excluded -/
+example : Walk exC.inst exC.okOf 0 [0, 1, 2] 3 ∧ ¬ Walk exC.inst exC.okOf 0 [6] 3 ∧
+    cost exC.costOf [6] < cost exC.costOf [0, 7] ∧
+    cost exC.costOf [0, 7] < cost exC.costOf [0, 1, 2] := by
+  simp only [Walk]
+  decide +kernel
+
+/-- the speed-table model (`exS`), A* with a non-zero estimate (`exA`), a reverse search (`exR`) -/
+example : ∃ r route, exS.runVertex 0 (some 3) [0, 1, 2, 3] = .ok r ∧ r.routes = [route] ∧
+    ∀ es, Walk exS.inst exS.okOf 0 es 3 →
+      (route.map (fun b => b.access + b.traversal)).sum ≤ cost exS.costOf es := by
+  obtain ⟨r, hr⟩ := ok_of_routeEdgesOf exS_run
+  obtain ⟨route, h1, _, _, _, h5⟩ :=
+    config_dijkstra_route_least_cost exS exS_edgeLocal rfl (by decide) hr
+  exact ⟨r, route, hr, h1, h5⟩
+
+example : exA.hOf 0 ≠ 0 ∧ ∃ r route, exA.runVertex 0 (some 3) [0, 1, 2, 3] = .ok r ∧
+    r.routes = [route] ∧
+    ∀ es, Walk exA.inst exA.okOf 0 es 3 →
+      (route.map (fun b => b.access + b.traversal)).sum ≤ cost exA.costOf es := by
+  refine ⟨by rw [exA_h0]; norm_num, ?_⟩
+  obtain ⟨r, hr⟩ := ok_of_routeEdgesOf exA_run
+  obtain ⟨route, h1, _, _, _, h5⟩ :=
+    config_astar_route_least_cost exA exA_edgeLocal (by simp [Config.wfOf, exA]) (by decide)
+      exA_admissible hr
+  exact ⟨r, route, hr, h1, h5⟩
+
+example : ∃ r route, exR.runVertex 3 (some 0) [3, 2, 1, 0] = .ok r ∧ r.routes = [route] ∧
+    ∀ es, Walk exR.inst exR.okOf 3 es 0 →
+      (route.map (fun b => b.access + b.traversal)).sum ≤ cost exR.costOf es := by
+  obtain ⟨r, hr⟩ := ok_of_routeEdgesOf exR_run
+  obtain ⟨route, h1, _, _, _, h5⟩ :=
+    config_dijkstra_route_least_cost exR exR_edgeLocal rfl (by decide) hr
+  exact ⟨r, route, hr, h1, h5⟩
+
+end
 
 end C02
 end Compass
